@@ -1,9 +1,11 @@
 (* Extraction of the configuration model (C18) for the correspondence driver.
-   ExtrOcamlBasic only; numbers stay the extracted inductive types. *)
-From Coq Require Import List ZArith Extraction ExtrOcamlBasic.
+   ExtrOcamlBasic only; numbers stay the extracted inductive types.  Nothing that mentions Coq's
+   `string` is extracted (it would shadow OCaml's in the driver). *)
+From Coq Require Import List ZArith NArith Extraction ExtrOcamlBasic.
 From CelloV Require Import Generated Config.
 
 Definition z_ltb := Z.ltb.
+Definition n_zero : N := 0%N.      (* conv.ml.inc mentions the type N *)
 
 Extraction Language OCaml.
-Extraction "../ocaml/gen/Config.ml" cfg_build cfg_default arun afires aspec_history header_words z_ltb.
+Extraction "../ocaml/gen/Config.ml" cfg_build cfg_default arun afires aspec_history z_ltb n_zero.
